@@ -437,6 +437,17 @@ def m_seq(kind):
             rows[k].pop("calculation", None)
             rows.insert(0, {"type": "select_multiple_from_file f.xml", "name": "ff0", "label": "F"})
             return E(k + 1, False, ["label"])
+        if kind in ("trigger-target-dup", "trigger-geopoint-target-dup"):
+            # a triggered calculation whose own name also occurs elsewhere: the setvalue's target would be ambiguous
+            if not q:
+                raise Skip
+            nm = rows[k]["name"]
+            rows[k] = {"type": "calculate" if kind == "trigger-target-dup" else "background-geopoint", "name": nm, "trigger": "${trg9}", "_n": i}
+            if kind == "trigger-target-dup":
+                rows[k]["calculation"] = "1 + 1"
+            rows.insert(0, {"type": "text", "name": "trg9", "label": "T"})
+            rows.extend([{"type": "begin group", "name": "gz9", "label": "G"}, {"type": "text", "name": nm, "label": "D"}, {"type": "end group"}])
+            return E(None, False, [nm])
         if kind in ("instance-clash-interleaved", "instance-clash-adjacent"):
             if i != 0:
                 raise Skip
@@ -458,6 +469,8 @@ def m_seq(kind):
 CATALOGUE = {
     "select-param-after-from-file": m_seq("select-param-after-from-file"),
     "select-param-label-after-from-file": m_seq("select-param-label-after-from-file"),
+    "trigger-target-dup": m_seq("trigger-target-dup"),
+    "trigger-geopoint-target-dup": m_seq("trigger-geopoint-target-dup"),
     "instance-clash-interleaved": m_seq("instance-clash-interleaved"),
     "instance-clash-adjacent": m_seq("instance-clash-adjacent"),
     "instance-clash-csv-interleaved": m_seq("instance-clash-csv-interleaved"),
